@@ -16,11 +16,12 @@ import (
 
 // PricingAtt is the structured value carried by a pricing text.
 type PricingAtt struct {
-	Valid  *Term // nil: accepted by the pricing schema by construction; else the condition under which it is
-	Price  *Term // Int >= 0, amount in the price's denomination
-	Denom  string
-	ByTime []PromoT
-	ByVol  []PromoV
+	Valid    *Term // nil: accepted by the pricing schema by construction; else the condition under which it is
+	Price    *Term // Int >= 0, amount in the price's denomination (PriceDec: numerator at 1e18 of a decimal amount)
+	Denom    string
+	PriceDec bool // the text writes the price with a decimal point ("12.5stake")
+	ByTime   []PromoT
+	ByVol    []PromoV
 }
 type PromoT struct {
 	Start, End TimeVal
@@ -33,6 +34,7 @@ type PromoV struct {
 type PriceAtt struct {
 	Amount *Term
 	Denom  string
+	Dec    bool
 }
 type AddrAtt struct{ Bytes []*Term }
 type HexAtt struct{ Bytes []*Term }
@@ -587,6 +589,10 @@ func init() {
 				dn = "stake"
 			}
 			dc.Fields[0] = e.constStr(dn)
+			if at.Dec { // sdk.NewDecFromStr of this SDK version makes no range check
+				dc.Fields[1] = &BigVal{T: at.Amount}
+				return TupleVal{dc, IfaceVal{}}
+			}
 			dc.Fields[1] = &BigVal{T: e.tt.IntBin("*", at.Amount, e.tt.Int(prec))}
 			return TupleVal{dc, IfaceVal{}}
 		}
@@ -627,7 +633,7 @@ func (e *Exec) rawPricing(at *PricingAtt) *StructVal {
 	for _, p := range at.ByVol {
 		bv = append(bv, &StructVal{Fields: []Value{p.Vol, &BigVal{T: p.Disc}}})
 	}
-	price := StrVal{B: e.constStr("<price>").B, Att: PriceAtt{Amount: at.Price, Denom: at.Denom}}
+	price := StrVal{B: e.constStr("<price>").B, Att: PriceAtt{Amount: at.Price, Denom: at.Denom, Dec: at.PriceDec}}
 	return &StructVal{Fields: []Value{price, e.mkSlice(bt), e.mkSlice(bv)}}
 }
 
